@@ -13,6 +13,12 @@ theorem isEventKey_eq (c : WCfg) (k : Bytes) :
   rw [eventsMatchScanner_eq]
   rfl
 
+theorem isEventKey_nil (c : WCfg) : isEventKey c [] = false := by
+  rw [isEventKey_eq]
+  cases h : c.eventsPfx with
+  | nil => simp
+  | cons a as => simp [hasPrefix]
+
 theorem eventsPrefixOf_eq (c : Cfg) : eventsPrefixOf c = c.pfx ++ eventsPattern := by
   unfold eventsPrefixOf
   rw [eventsPrefixShape_eq]
